@@ -24,7 +24,7 @@ ASSUMPTIONS = [
     "a failed send's reason is the ASH error code 0x51 for an exhausted budget and the frame's code for an ERROR frame",
 ]
 PROBES = ["repeat_on_nak", "repeat_on_timeout", "fail_by_budget", "fail_by_error_frame", "retx_after_cover_same_instant",
-          "fail_after_cover_same_instant", "rstack_midsend", "recovered_by_rstack", "send_after_fail_refused", "piggyback_cover",
+          "fail_after_cover_same_instant", "rstack_midsend", "recovered_by_rstack", "host_reset_after_failure", "send_after_fail_refused", "piggyback_cover",
           "queued_sends_failed"]
 
 REACT = ("A", "S", "N", "0", "E", "R")
@@ -53,6 +53,9 @@ def plan(tier):
             nmix = 1 if tier == "quick" else 6
             for m in range(nmix):
                 sweeps.append(("one", {"script": s, "queued": q, "off": None, "mix": m}, None))
+    for s_ in ("SSSSS", "E", "NNNNN", "SNSNS", "SE"):
+        for q in (0, 2):
+            sweeps.append(("one", {"script": s_, "queued": q, "off": [1] * 5, "host_reset": True}))
     return {
         "sweeps": sweeps,
         "exhaustive": "all pruned per-attempt reaction scripts over {covering ACK, stale ACK, NAK, silence, ERROR, RSTACK}^k (k<=5) for one send, with 0 and 2 queued sends, at the four uniform reaction timings",
@@ -80,7 +83,7 @@ def run_script(params, tape, detail=False):
         script = params["script"]
         nsend = 1 + params.get("queued", 0)
     offs = params.get("off")
-    payloads = [b"P" + bytes([i]) + bytes([0x7E, 0x11, i]) for i in range(nsend + 2)]
+    payloads = [b"P" + bytes([i]) + bytes([0x7E, 0x11, i]) for i in range(nsend + 3)]
     rig.payloads.update(payloads)
     attempt = {}  # payload -> attempts seen
     sends = {}  # i -> dict(start, end, outcome, exc)
@@ -92,7 +95,7 @@ def run_script(params, tape, detail=False):
 
     def next_reaction(frm, payload):
         k = attempt[payload]
-        if payload == payloads[nsend]:
+        if payload in (payloads[nsend], payloads[nsend + 1]):
             return "A"  # the fresh send after a recovery is answered normally
         if script is not None:
             if payload == payloads[0] and k <= len(script):
@@ -110,7 +113,7 @@ def run_script(params, tape, detail=False):
         attempt[payload] = attempt.get(payload, 0) + 1
         k = attempt[payload]
         r = next_reaction(frm, payload)
-        ok = "imm" if payload == payloads[nsend] else offset_kind(k)
+        ok = "imm" if payload in (payloads[nsend], payloads[nsend + 1]) else offset_kind(k)
         # decided now, delivered relative to the host's ACK deadline, which exists once the sending task has yielded
         loop.external(loop.time(), react, frm, payload, r, ok, group="peer")
 
@@ -185,7 +188,31 @@ def run_script(params, tape, detail=False):
         await asyncio.gather(*tasks, return_exceptions=True)
         await asyncio.sleep(5.0)
         # phase 2: after a failure, an RSTACK (or none), then a fresh send
-        if mon.failed:
+        if mon.failed and (params.get("host_reset") or (many and tape.draw(3, "host_reset?") == 2)):
+            # the upper layer resets the link itself: RST written, a send issued BEFORE the RSTACK arrives (the NCP is still rebooting) is
+            # refused without a write, the RSTACK then ends the episode and a fresh send completes
+            probe("host_reset_after_failure")
+            proto.send_reset()
+            writes_before = len([1 for (tt, fr) in mon.tx_frames if fr[0] == "data"])
+            i = nsend
+            t = loop.create_task(sender(i))
+            await asyncio.gather(t, return_exceptions=True)
+            await asyncio.sleep(0.2)
+            s0 = sends.get(i)
+            nw = len([1 for (tt, fr) in mon.tx_frames if fr[0] == "data"]) - writes_before
+            if s0 is None or s0["outcome"] != "raised" or nw:
+                viol.append(("C05.fail", "send-between-rst-and-rstack", f"a send issued after the host's RST and before any RSTACK ended {s0 and s0['outcome']} and wrote {nw} DATA frame(s)"))
+            rig.peer_send(R.f_rstack(R.RESET_SOFTWARE), delay=0.01)
+            peer_rx[0] = 0
+            await asyncio.sleep(0.1)
+            fresh["recovered"] = True
+            i = nsend + 1
+            writes_before = len(mon.tx_frames)
+            t = loop.create_task(sender(i))
+            await asyncio.gather(t, return_exceptions=True)
+            fresh["writes"] = len(mon.tx_frames) - writes_before
+            fresh["i"] = i
+        elif mon.failed:
             writes_before = len(mon.tx_frames)
             if tape.draw(2, "rstack?") or params.get("recover"):
                 rig.peer_send(R.f_rstack(R.RESET_SOFTWARE), delay=0.01)
